@@ -12,6 +12,18 @@ def _run_dill_encoded(payload):
     return res
 
 
+class _TaskFailure:
+    """
+    Marker passed back through the result queue when a task raised an exception in a
+    worker, so that the caller can re-raise it instead of waiting forever for a result
+    that will never arrive.
+    """
+
+    def __init__(self, exception, traceback_string):
+        self.exception = exception
+        self.traceback_string = traceback_string
+
+
 class ParallelMap:
     """
     Apply functions in parallel, using dill for pickling, inspired by example here
@@ -69,9 +81,22 @@ class ParallelMap:
         f_Z = equilibrium.f_Z
         while True:
             i, function, args, kwargs = task_queue.get()
-            result = function(
-                *args, equilibrium=equilibrium, psi=psi, f_R=f_R, f_Z=f_Z, **kwargs
-            )
+            try:
+                result = function(
+                    *args, equilibrium=equilibrium, psi=psi, f_R=f_R, f_Z=f_Z, **kwargs
+                )
+            except Exception as e:
+                # Pass the failure back to the caller, which re-raises it (as the serial
+                # version would). Otherwise the caller would block forever.
+                import pickle
+                import traceback
+
+                traceback_string = traceback.format_exc()
+                try:
+                    pickle.dumps(e)
+                except Exception:
+                    e = RuntimeError(f"{type(e).__name__}: {e}")
+                result = _TaskFailure(e, traceback_string)
             result_queue.put((i, result))
 
     def __call__(self, function, args_list, **kwargs):
@@ -103,5 +128,14 @@ class ParallelMap:
             raise ValueError("Some tasks not finished")
         if not self.result_queue.empty():
             raise ValueError("Some results not handled")
+
+        # All results have been collected, so the queues are clean for the next call. If
+        # any task failed, raise the exception of the first one (in task order, as the
+        # serial version would).
+        for this_result in result:
+            if isinstance(this_result, _TaskFailure):
+                raise this_result.exception from RuntimeError(
+                    "Task failed in worker process:\n" + this_result.traceback_string
+                )
 
         return result
